@@ -263,7 +263,7 @@ TIMING = [
 
 def fam_merge(configs):
   da = [None, "before", "after"]
-  prod = Product([range(len(TIMING)), da, da, [None, "tbrl"], [0, 1, 2], [0, 1, 2, 3], configs])
+  prod = Product([range(len(TIMING)), da, da, [None, "tbrl"], [0, 1, 2], [0, 1, 2, 3, 4], configs])
 
   def dec(i):
     ti, d1, d2, wm2, geo, assign, c = prod.decode(i)
@@ -299,8 +299,15 @@ def fam_merge(configs):
         p["c"][0]["r"] = rid
       elif assign == 2:
         p["r"] = "r1"
+      elif assign == 4:
+        p["r"] = rid                 # the same region referenced at several nesting levels
+        p["c"][0]["r"] = rid
       ps.append(p)
-    body = node("body", [node("div", ps, id="d")], id="b")
+    if assign == 4:
+      # one div per paragraph, the same region referenced on div, p and span
+      body = node("body", [node("div", [p], id=f"d{j}", r=p["r"]) for j, p in enumerate(ps)], id="b")
+    else:
+      body = node("body", [node("div", ps, id="d")], id="b")
     if assign == 3:
       body["c"][0]["r"] = f"r{n}"
     return {"spec": doc_spec(body, regs), "config": list(c), "key": f"merge#{i}"}
